@@ -23,8 +23,10 @@ EXTENDS ClientFetchOps
 Trace == ndJsonDeserialize("trace.ndjson")
 
 CONSTANTS Want,                 \* clause families evaluated: subset of {"c10","c11","c12","c13","c20"}
-          TolerateStaleAnchor   \* TRUE: the recorded finding (MPEG-TS unit stored before the first leading-track unit of its
-                                \* segment is dated with the previous segment's date-time) is not reported again
+          TolerateStaleAnchor   \* TRUE: the recorded findings that stem from the order in which the MPEG-TS demuxer emits units
+                                \* (a unit emitted before the first leading-track unit of its segment is dated with the previous
+                                \* segment's date-time; at the start of the stream such units are dropped whatever their time)
+                                \* are not reported again
 
 VARIABLES l, sc, cs, dl, f, why, st
 
@@ -152,7 +154,7 @@ TraceData ==
          r == FailAll(f, why, <<
                 <<"c10", "C10_TracksBeforeData", st.tracks>>,
                 <<"c10", "C10_ByteIdentical", wf => (e.idok = 1 /\ e.same = 1 /\ e.st = e.lt)>>,
-                <<"c10", "C10_InOrderOnce", wf => (IF dl[t] = 0 THEN e.first = 1 ELSE e.id = dl[t] + 1)>>,
+                <<"c10", "C10_InOrderOnce", wf => (IF dl[t] = 0 THEN (e.first = 1 /\ (e.startup = 0 \/ TolerateStaleAnchor)) ELSE e.id = dl[t] + 1)>>,
                 <<"c10", "C10_OnlyDownloaded", wf => e.id <= Downloaded(j)>>,
                 <<"c10", "C10_NeverNegative", e.pts >= 0 /\ (wf => e.neg = 0)>>,
                 <<"c10", "C10_DTS", wf => e.dd = 0>>,
